@@ -1,5 +1,7 @@
 """C04 - Operands are evaluated exactly once, in source order, conditions eagerly."""
+import common
 import gen_prog
+import pipeline
 import semprop
 
 
@@ -11,5 +13,46 @@ def transform(rng, prog):
     return gen_prog.add_tracers(prog)
 
 
+def _cmd(script):
+    import cmdsim
+    try:
+        out, st = cmdsim.run(script)
+        return ("ok", out, st)
+    except cmdsim.Stuck as e:
+        return ("stuck", str(e), None)
+    except cmdsim.Budget:
+        return ("budget", "", None)
+    except (RecursionError, MemoryError):
+        return ("budget", "recursion/memory", None)
+
+
+_DONE = {}
+
+
+def batch_directed(b, cases):
+    """the property is not about one target: the directed programs (hand-computed traces of evaluation order, of this property and of
+    the call / control-flow properties) also run as Batch scripts under the cmd model of C05 (round 9: C04-B, a Batch-only change of the
+    loop bookkeeping that skips the step expression of a loop)"""
+    if _DONE.get("x"):
+        return []
+    _DONE["x"] = True
+    extra = []
+    for prop in ("C04", "C02", "C01"):
+        for name, j in semprop.load_corpus(prop):
+            extra.append(pipeline.Case("batch-%s-%s" % (prop, name), semprop.corpus_files(j),
+                                       meta=dict(expected_out=j["stdout"], expected_status=j["status"], src=j["src"])))
+    pipeline.run_pipe(b, extra, "w")
+    ok = [c for c in extra if c.out.get("BATCH", ("", ""))[0] == "OK"]
+    fails = []
+    for c, r in zip(ok, common.pmap_proc(_cmd, [bytes.fromhex(c.out["BATCH"][1]).decode("utf-8", "replace") for c in ok], chunksize=2)):
+        if r[0] != "ok":
+            continue                    # files, programs, budget: outside the cmd model
+        want = "".join(l + "\n" for l in c.meta["expected_out"])
+        if r[1] != want or r[2] != c.meta["expected_status"]:
+            fails.append((c, "batch-behaviour", dict(want_stdout=want, under_cmd_model=str(r)[:800])))
+    return fails
+
+
 def run(res, b, tier, seed):
-    semprop.run_semantic(res, b, tier, seed, "C04", cfgs, transform)
+    _DONE.clear()
+    semprop.run_semantic(res, b, tier, seed, "C04", cfgs, transform, extra_oracle=batch_directed)
